@@ -60,17 +60,23 @@ deriving Repr, Inhabited
 
 /-- number of iterations of `for i in 0..1 << b` where the literal `1` falls back to `i32`
 (`new_offline`, offline `into_shard_store`): shift amounts ≥ 32 panic (checked build),
-`1i32 << 31 = i32::MIN` makes the range empty. -/
+`1i32 << 31 = i32::MIN` makes the range empty (probed on the real code: `new_offline(31, 0, None)`
+returns `Ok` with no bucket file at all and the first `try_push` panics; `new_offline(32, ..)`
+panics with "attempt to shift left with overflow"). -/
 def i32Count (b : Nat) : Out Nat :=
   if 32 ≤ b then .panic else if b = 31 then .ok 0 else .ok (2 ^ b)
+
+/-- number of bucket writers created: `resize_with(1 << b, ..)` (online), the `i32` loop (offline) -/
+def newWriters (be : Backend) (b : Nat) : Out Nat :=
+  match be with
+  | .mem => .ok (2 ^ b)
+  | .file => i32Count b
 
 /-- `new_online` (`be = mem`) / `new_offline` (`be = file`); `1u64 << bits` and `1usize << bits`
 panic for `bits ≥ 64` in a checked build.  The `expected_num_keys` argument only sets capacities. -/
 def new (be : Backend) (sw b m : Nat) : Out Store :=
-  if 64 ≤ b ∨ 64 ≤ m then .panic else do
-  let nw ← match be with
-    | .mem => pure (2 ^ b)
-    | .file => i32Count b
+  if 64 ≤ b ∨ 64 ≤ m then .panic else
+  newWriters be b >>= fun nw =>
   pure {
     backend := be, sigWords := sw, len := 0,
     bucketsHighBits := b, maxShardHighBits := m,
@@ -127,12 +133,16 @@ structure ShardStore where
   shardSizes : List Nat
 deriving Repr, Inhabited
 
+/-- the readers: memory buckets as they are; offline `pop_front().unwrap()` in the `i32` loop -/
+def storeFiles (s : Store) : Out (List (List Pair)) :=
+  match s.backend with
+  | .mem => .ok s.buckets
+  | .file => i32Count s.bucketsHighBits >>= fun n => popFronts n s.buckets
+
 /-- `SigStore::into_shard_store` (both impls) -/
 def intoShardStore (s : Store) (sb : Nat) : Out ShardStore :=
-  if s.maxShardHighBits < sb then .panic else do
-  let files ← match s.backend with
-    | .mem => pure s.buckets
-    | .file => i32Count s.bucketsHighBits >>= fun n => popFronts n s.buckets
+  if s.maxShardHighBits < sb then .panic else
+  storeFiles s >>= fun files =>
   let sizes := (chunks (1 <<< (s.maxShardHighBits - sb)) s.shardSizes).map List.sum
   pure {
     backend := s.backend, sigWords := s.sigWords,
@@ -178,6 +188,13 @@ def readFile (bufSizes : List Nat) (bks : List (List Pair)) (i : Nat) :
   match bufSizes[i]?, bks[i]? with
   | some n, some f => if f.length < n then .panic else .ok (f.take n, bks)
   | _, _ => .panic
+
+/-- split branch: the whole bucket `i` (memory: released when consuming; file: kept) -/
+def readBucket (be : Backend) (borrowed : Bool) (bufSizes : List Nat) (bks : List (List Pair))
+    (i : Nat) : Out (List Pair × List (List Pair)) :=
+  match be with
+  | .mem => takeOrClone borrowed bks i
+  | .file => readFile bufSizes bks i
 
 /-- memory, aggregate branch: `for i in next_bucket..next_bucket + to_aggr { shard.extend(..) }` -/
 def aggrLoop (borrowed : Bool) : Nat → Nat → List (List Pair) → List Pair →
@@ -235,9 +252,7 @@ def splitNext (it : Iter) : Out (Option (List Pair) × Iter) :=
       let splitInto := 1 <<< (st.shardHighBits - st.bucketHighBits)
       let off := it.nextBucket * splitInto
       mkQueues st.shardSizes splitInto off it.shards >>= fun q =>
-      (match st.backend with
-        | .mem => takeOrClone it.borrowed st.buckets it.nextBucket
-        | .file => readFile st.bufSizes st.buckets it.nextBucket) >>= fun r =>
+      readBucket st.backend it.borrowed st.bufSizes st.buckets it.nextBucket >>= fun r =>
       distribute st.sigWords st.shardHighBits ((1 <<< st.shardHighBits) - 1) off r.1 q >>= fun q' =>
       popShard { it with store := { st with buckets := r.2 }, shards := q',
                          nextBucket := it.nextBucket + 1 }
